@@ -282,7 +282,8 @@ impl UnixStr {
             return None;
         }
         let this_buf = &self.0;
-        let other_buf = &other.0[..other.0.len() - 2];
+        // Search for the content of `other`, without its terminator
+        let other_buf = &other.0[..other.0.len() - 1];
         buf_find(this_buf, other_buf)
     }
 
@@ -512,6 +513,10 @@ impl UnixStr {
 #[inline]
 #[expect(clippy::needless_range_loop)]
 fn buf_find(this_buf: &[u8], other_buf: &[u8]) -> Option<usize> {
+    // The empty string is found at the start of anything
+    if other_buf.is_empty() {
+        return Some(0);
+    }
     for i in 0..this_buf.len() {
         if this_buf[i] == other_buf[0] {
             let mut no_match = false;
